@@ -150,19 +150,6 @@ where
                     IoEvent::Write(Some(message)) => {
                         trace!("Sending command '{cmd}'.", cmd = print_recon(&message));
 
-                        match &mut state {
-                            State::Synced(map) | State::Linked(map) => match &message {
-                                MapOperation::Update { key, value } => {
-                                    map.insert(K::clone(key), V::clone(value));
-                                }
-                                MapOperation::Remove { key } => {
-                                    map.remove(key);
-                                }
-                                MapOperation::Clear => map.clear(),
-                            },
-                            State::Unlinked => {}
-                        }
-
                         if let Err(e) = framed.feed(message).await {
                             error!(error = ?e, "Failed to feed downlink frame. Transitioning to read-only mode");
                         }
